@@ -411,6 +411,39 @@ PLANS["C06"] = {
 }
 
 
+from . import fault as _fault  # noqa: E402
+
+
+def _fault_tags(beh):
+    c = beh[0]
+    return frozenset(["%s|%s|%s|%s" % (c["sc"], c["k"], c["kind"], c["corrupt"])])
+
+
+CORRUPTIONS = ["%s:%s" % (t, h) for t in ("checkpoints", "initial", "journal") for h in ("truncate", "garbage", "delete")]
+
+
+def fault_consts(scenarios, maxk, kinds, corruptions):
+    return {"Scenario": list(scenarios), "MaxK": maxk, "Kinds": list(kinds), "Corruptions": list(corruptions),
+            "Mode": "gen"}
+
+
+PLANS["C07"] = {
+    "clauses": ["C07_TwoOutcomes", "C07_NextWorks"],
+    "module": "Proxy.tla", "const_keys": ["Scenario", "MaxK", "Kinds", "Corruptions", "Mode"],
+    "executor": _fault.execute_fault, "tagger": _fault_tags, "end_event": {"ev": "reset", "run": "end"},
+    "quick": [
+        dict(name="fail", consts=fault_consts(("commit", "commit_partial", "reset_hard", "stash", "checkout", "amend"),
+                                              48, ("fail",), CORRUPTIONS),
+             invariants=["G_TwoOutcomes", "G_NextWorks"], budget=400, variants=[("-", "-")], per_tag=1),
+    ],
+    "thorough": [
+        dict(name="all", consts=fault_consts(sorted(_fault.SCENARIOS), 90, ("fail", "kill"), CORRUPTIONS),
+             invariants=["G_TwoOutcomes", "G_NextWorks"], budget=2000, variants=[("-", "-")], per_tag=1,
+             timeout=2400),
+    ],
+}
+
+
 def _core(pid, tier, seed):
     return core_check.run_core(pid, tier, seed, PLANS[pid])
 
